@@ -1236,6 +1236,21 @@ func (d *Driver) FamExtVal(nrand int, prop string) {
 			kinds = append(kinds, k)
 		}
 		sort.Strings(kinds)
+		// call history: the first extension call this process makes for (this message type, each field number) is a probe with the
+		// descriptor another runtime generated for the same schema - documented to answer false; what follows must not depend on it
+		for _, other := range d.Types {
+			if other.Exts == nil || other.Flavour == ti.Flavour {
+				continue
+			}
+			for _, k := range kinds {
+				if x, ok := other.Exts[k]; ok {
+					func() {
+						defer func() { _ = recover() }()
+						_ = csproto.HasExtension(ti.New(), x)
+					}()
+				}
+			}
+		}
 		one := func(sel map[string]int, withFields bool, label string) {
 			var setKinds []string
 			for _, k := range kinds {
